@@ -15,6 +15,7 @@ class CountControlConstructionTokenTranslator(AbstractTranslator):
         matrices = ', '.join(
             MatrixOfCellIdentifiersTokenTranslator.translate(matrix, excel, context)
             for matrix in token.matrices
-        ) or []
+        )
         arg_cells = ', '.join(CellTranslator.translate(arg.cell, excel, context) for arg in token.arg_cells)
-        return f'self._count({matrices}, {args}, [{arg_cells}])'
+        # all areas travel in one list: with two or more of them the call used to get too many positional arguments
+        return f'self._count([{matrices}], {args}, [{arg_cells}])'
